@@ -302,7 +302,7 @@ Theorem enc_apitem_exact i s s' : enc_apitem i s = EOk tt s' ->
                        u8b (if i_neg i then N.lor (lenN b) 128 else lenN b) ++ b /\ lenN b < 128.
 Proof.
   unfold enc_apitem, eu16, eu8. rewrite !ebind_put, !sput_sput.
-  destruct (rr_address_with_prefix_put (i_addr i) (i_prefix i)) as (b & Hput).
+  destruct (rr_address_with_length_put (i_addr i) ENC_APL_MINIMUM_LENGTH) as (b & Hput).
   unfold ebind at 1. cbn [buf_len]. rewrite ebind_put. unfold ebind. rewrite Hput, put_eq, !sput_sput.
   set (h := u16b (a_fam (i_addr i)) ++ u8b (i_prefix i)).
   rewrite (set_address_length_index_exact _ (e_buf s ++ h) (0 mod 256) b);
